@@ -34,6 +34,13 @@ func MarshalResource(r Resource, prepath string, fields []string, relData map[st
 		for _, field := range fields {
 			if field == attr.Name {
 				attrs[attr.Name] = r.Get(attr.Name)
+
+				// A byte slice that is not nullable is never
+				// null, it is empty.
+				if b, ok := attrs[attr.Name].([]byte); ok && b == nil {
+					attrs[attr.Name] = []byte{}
+				}
+
 				break
 			}
 		}
